@@ -45,8 +45,11 @@ CLAUSE_PROPS = {
 }
 
 
-def T(t):
-    return BASE + timedelta(seconds=int(t))
+def T(t, tick=1):
+    """model time -> datetime; tick = seconds per model time unit (a Fraction for sub-second lattices)"""
+    if tick == 1:
+        return BASE + timedelta(seconds=int(t))
+    return BASE + timedelta(microseconds=int(round(t * tick * 1000000)))
 
 
 class EventX(IEvent):
@@ -121,24 +124,26 @@ class World:
     def __init__(self, cfg, trade, seed=0, extra_features=None):
         self.cfg = cfg
         self.trade = trade
+        self.tick = tick = cfg.get("tick", 1)
         self.grid = list(cfg["grid"])
         self.A, self.B = ETF("A"), ETF("B")
         self.contracts = {"A": self.A, "B": self.B}
         self.sink, self.sinkx = Sink(), Sink()
         rnd = random.Random(seed)
-        ts = [T(t) for t in self.grid] + [T(self.grid[rnd.randrange(len(self.grid))]) for _ in range(2)]
+        ts = [T(t, tick) for t in self.grid] + [T(self.grid[rnd.randrange(len(self.grid))], tick) for _ in range(2)]
         rnd.shuffle(ts)
-        warm = timedelta(seconds=cfg["warmup"]) if cfg["warmup"] >= 0 else None
-        tr = Transmitter(ts, folds={"f": [T(cfg["fstart"]), T(cfg["fend"])]}, markov_reset=bool(cfg["markov"]),
+        warm = (T(cfg["warmup"], tick) - BASE) if cfg["warmup"] >= 0 else None
+        fend = T(cfg["fend"], tick) if cfg["fend"] < 2000000000 else T(2000000000)
+        tr = Transmitter(ts, folds={"f": [T(cfg["fstart"], tick), fend]}, markov_reset=bool(cfg["markov"]),
                          warmup=warm)
         self.events = []
         for e in cfg["events"]:
             if e["kind"] == "q":
-                ev = EventNBBO(T(e["t"]), self.contracts[e["c"]], float(e["bid"]), float(e["ask"]))
+                ev = EventNBBO(T(e["t"], tick), self.contracts[e["c"]], float(e["bid"]), float(e["ask"]))
             elif e["kind"] == "x":
-                ev = EventX(T(e["t"]), e["id"])
+                ev = EventX(T(e["t"], tick), e["id"])
             else:
-                ev = EventContractDiscontinued(T(e["t"]), self.contracts[e["c"]])
+                ev = EventContractDiscontinued(T(e["t"], tick), self.contracts[e["c"]])
             self.sink.ids[id(ev)] = e["id"]
             self.sinkx.ids[id(ev)] = e["id"]
             self.events.append(ev)
@@ -153,7 +158,7 @@ class World:
             space = BoxPortfolio([self.A, self.B], low=0.0, high=1.0)
         feats = (extra_features(self) if extra_features else []) + [Rec(self.sink), RecX(self.sinkx)]
         self.env = TradingEnv(action_space=space, state=feats, transmitter=tr,
-                              latency=cfg["lat"], steps_delay=cfg["delay"],
+                              latency=float(cfg["lat"] * tick), steps_delay=cfg["delay"],
                               episode_length=(cfg["eplen"] or None), initial_cash=1000.0)
         self.sink.env = self.env
         self.sinkx.env = self.env
@@ -260,12 +265,20 @@ def soft_ids(cfg, start):
     return out
 
 
+_TICK = [1]
+
+
 def _secs(t):
+    """datetime -> model time units"""
     if t is None:
         return -1
     if hasattr(t, "to_pydatetime"):
         t = t.to_pydatetime()
-    return int(round((t - BASE).total_seconds()))
+    d = t - BASE
+    if _TICK[0] == 1:
+        return int(round(d.total_seconds()))
+    us = d.days * 86400000000 + d.seconds * 1000000 + d.microseconds
+    return int(round(us / (float(_TICK[0]) * 1000000)))
 
 
 def compare_call(w, rec, out, val, soft, track_before, pos_before):
@@ -389,6 +402,7 @@ def compare_call(w, rec, out, val, soft, track_before, pos_before):
 
 def run_case(cfg, hist, trade, seed=0, owned=None):
     """-> (fails [(call index, clause, detail)], calls executed)"""
+    _TICK[0] = cfg.get("tick", 1)
     w = World(cfg, trade, seed)
     fails = []
     soft = set()
